@@ -72,24 +72,52 @@ def tag_totality(ck, readers, floor, rule="TAB"):
 
 
 def strict_order(ck, ws, cname, path):
+    """an ordered-collection decoder rejects unless each new key is strictly greater than the previous key.
+    'previous' must be the look-ahead element (Option::take) or the maximum of the output (last / last_key_value)."""
     f = getfn(ck, ws, cname, path)
     if not f:
         return
-    gts = [cx for cx in rules.comparisons(f) if cx["kind"] == "call" and cx["op"] == "Gt"]
+    PREV = r"Option::<T>::take$|BTreeSet::<T, A>::last$|BTreeMap::<K, V, A>::(last_key_value|last_entry)$"
+    NOTPREV = r"BTree(Set|Map)::<.*>::(first|first_key_value|first_entry|iter|get|range)$"
     ok = False
-    for cx in gts:
+    detail = "no comparison between the freshly read key and the previous key"
+    rr = f.reject_region()
+    for cx in rules.comparisons(f):
+        if cx["kind"] != "call":
+            continue
+        oa = f.origins(cx["a"], deep=True)
+        ob = f.origins(cx["b"], deep=True)
+        fresh_a = has_call_origin(oa, r"Get::get$|Deserial::deserial$") and not has_call_origin(oa, PREV + "|" + NOTPREV)
+        fresh_b = has_call_origin(ob, r"Get::get$|Deserial::deserial$") and not has_call_origin(ob, PREV + "|" + NOTPREV)
+        if fresh_a == fresh_b:
+            continue
+        prev = ob if fresh_a else oa
         br = rules.cmp_branches(f, cx)
         if br is None:
             continue
         sb, t_t, f_t = br
-        rr = f.reject_region()
+        # relation, oriented as  new OP prev
+        op = cx["op"] if fresh_a else rules.FLIP[cx["op"]]
+        # which branch rejects?
+        if t_t in rr and f_t not in rr:
+            rej_rel = op
+        elif f_t in rr and t_t not in rr:
+            rej_rel = rules.NEG[op]
+        else:
+            detail = "the key comparison at %s does not lead to rejection" % f.loc(cx["bb"])
+            continue
+        if rej_rel != "Le":
+            detail = "rejects when new %s previous (must reject exactly when new <= previous)" % rej_rel
+            continue
+        if not has_call_origin(prev, PREV) or has_call_origin(prev, NOTPREV):
+            detail = "the key is compared with %s, which is not the previous (largest so far) key" % sorted(set(a[1].split("::")[-1] for a in prev if a[0] == "call"))[:4]
+            continue
         ins = f.calls(r"BTree(Map|Set)::<.*>::insert$")
-        if f_t in rr and ins and all(bi not in f.reach_from([f_t], avoid={sb}) for (bi, _) in ins):
-            oa = f.origins(cx["a"], deep=True)
-            ob = f.origins(cx["b"], deep=True)
-            if has_call_origin(oa, r"Get::get$|Deserial::deserial$") and has_call_origin(ob, r"Option::<T>::take$"):
-                ok = True
-    ck.ob("CMP", f.path, "strictly-increasing-keys", ok, "rejects unless new key > previous key (resolved PartialOrd::gt); insertion only on that branch", f.loc())
+        rej_t = t_t if t_t in rr else f_t
+        if ins and all(bi not in f.reach_from([rej_t], avoid={sb}) for (bi, _) in ins):
+            ok = True
+            detail = "rejects exactly when new key <= previous key (previous = look-ahead element or maximum of the output)"
+    ck.ob("CMP", f.path, "strictly-increasing-keys", ok, detail, f.loc())
 
 
 def alloc_err_sweep(ck, cg, roots, bounded_types=(), floor=1, err_exceptions=None, alloc_exceptions=None, scope_pred=None):
